@@ -725,7 +725,7 @@ class SymExec:
             self.refine(cnode["l"], None, False)
             self.refine(cnode["r"], None, False)
             return
-        if k == "Binary" and ((cnode["op"] == "Eq" and truth) or (cnode["op"] == "Ne" and not truth)) and cnode["l"].get("ty") in ("f64", "usize", "f32"):
+        if k == "Binary" and ((cnode["op"] == "Eq" and truth) or (cnode["op"] == "Ne" and not truth)) and cnode["l"].get("ty") in ("f64", "f32"):
             # `a == b` holds: substitute the plain variable side by the other side's value
             for va, vb in ((cnode["l"], cnode["r"]), (cnode["r"], cnode["l"])):
                 if va.get("k") == "Path" and va.get("res") == "local":
